@@ -369,27 +369,60 @@ func indexOf(h, n []byte) int {
 	return strings.Index(string(h), string(n))
 }
 
-// walkImage opens and walks the image; returns the number of files read and whether an error surfaced.
-func c18Walk(bi *builtImage, img *simdisk.Disk, limit int64) (files int, sawErr bool) {
-	fs, err := bi.Open(img)
+// c18Call is the most expensive single library call of a walk.
+type c18Call struct {
+	What      string
+	Sec       float64
+	Truncated bool // the walk stopped early because its total CPU allowance was used up
+}
+
+const (
+	c18WalkCPU = 10.0 // s of CPU after which the walker stops descending (not a violation: the cost of a walk is calls x directory size)
+	c18CallCPU = 5.0  // s of CPU a single library call may take on a <= 17 MiB image
+)
+
+// c18Walk opens and walks the image; returns the number of files read, whether an error surfaced and the
+// costliest single call. Every library call is timed on its own: the statement bounds each of them, whereas
+// the number of calls a walk makes is the walker's own choice.
+func c18Walk(bi *builtImage, img *simdisk.Disk, limit int64) (files int, sawErr bool, worst c18Call) {
+	t00 := core.CPUSeconds()
+	timed := func(what string, f func()) {
+		t0 := core.CPUSeconds()
+		f()
+		if el := core.CPUSeconds() - t0; el > worst.Sec {
+			worst.What, worst.Sec = what, el
+		}
+	}
+	var fs filesystem.FileSystem
+	var err error
+	timed("open", func() { fs, err = bi.Open(img) })
 	if err != nil {
-		return 0, true
+		return 0, true, worst
 	}
 	var walk func(dir string, depth int)
 	seen := 0
+	spent := func() bool {
+		if core.CPUSeconds()-t00 > c18WalkCPU {
+			worst.Truncated = true
+			return true
+		}
+		return false
+	}
 	walk = func(dir string, depth int) {
 		if depth > 24 || seen > 4000 {
 			sawErr = true
 			return
 		}
-		ents, err := fs.ReadDir(dir)
+		var ents []iofs.DirEntry
+		var err error
+		timed("ReadDir", func() { ents, err = fs.ReadDir(dir) })
 		if err != nil {
 			sawErr = true
 			return
 		}
 		for _, e := range ents {
 			seen++
-			if seen > 4000 {
+			if seen > 4000 || spent() {
 				return
 			}
 			name := e.Name()
@@ -400,35 +433,41 @@ func c18Walk(bi *builtImage, img *simdisk.Disk, limit int64) (files int, sawErr 
 			if dir != "." {
 				p = dir + "/" + name
 			}
-			if _, err := e.Info(); err != nil {
-				sawErr = true
-			}
+			timed("Info", func() {
+				if _, err := e.Info(); err != nil {
+					sawErr = true
+				}
+			})
 			if e.IsDir() {
 				walk(p, depth+1)
 				continue
 			}
-			if _, err := fs.Stat(p); err != nil {
-				sawErr = true
-			}
+			timed("Stat", func() {
+				if _, err := fs.Stat(p); err != nil {
+					sawErr = true
+				}
+			})
 			op := p
 			if bi.PathOf("x") == "/x" {
 				op = "/" + p
 			}
 			var f iofs.File
-			f, err = fs.(filesystem.FileSystem).Open(op)
+			timed("Open", func() { f, err = fs.Open(op) })
 			if err != nil {
 				sawErr = true
 				continue
 			}
-			if _, err := io.Copy(io.Discard, io.LimitReader(f, limit)); err != nil {
-				sawErr = true
-			}
+			timed("Read", func() {
+				if _, err := io.Copy(io.Discard, io.LimitReader(f, limit)); err != nil {
+					sawErr = true
+				}
+			})
 			f.Close()
 			files++
 		}
 	}
 	walk(".", 0)
-	return files, sawErr
+	return files, sawErr, worst
 }
 
 func (p c18) Exec(t *core.Trace) *core.Result {
@@ -473,7 +512,7 @@ func (p c18) Exec(t *core.Trace) *core.Result {
 	// fault-free baseline
 	baseImg := base.Clone()
 	baseImg.St = simdisk.Stats{}
-	nfiles, _ := c18Walk(bi, baseImg, 64*imgSize)
+	nfiles, _, _ := c18Walk(bi, baseImg, 64*imgSize)
 	baseReads := baseImg.St.Reads
 	budget := baseReads * 1000
 	if budget < 20000 {
@@ -492,9 +531,9 @@ func (p c18) Exec(t *core.Trace) *core.Result {
 		img.MaxReadAllowed = 64*imgSize + 1<<20
 		img.ReadBudget = budget
 		trig := fam + ":" + faultClass(ops)
-		t0 := core.CPUSeconds()
 		var sawErr bool
-		pk, pv, loc, st := core.Guard(func() { _, sawErr = c18Walk(bi, img, 64*imgSize) })
+		var worst c18Call
+		pk, pv, loc, st := core.Guard(func() { _, sawErr, worst = c18Walk(bi, img, 64*imgSize) })
 		res.DevOps += img.St.Reads
 		if pk {
 			if pv == simdisk.ErrReadBudget {
@@ -505,8 +544,11 @@ func (p c18) Exec(t *core.Trace) *core.Result {
 		if img.OversizeRead > 0 {
 			return &core.Violation{Clause: "C18.disproportionate-read", Trigger: trig, Locus: img.OversizeLocus, Detail: fmt.Sprintf("single read request of %d bytes on a %d-byte image\nfaults: %v", img.OversizeRead, imgSize, ops)}
 		}
-		if el := core.CPUSeconds() - t0; el > 10 {
-			return &core.Violation{Clause: "C18.slow", Trigger: trig, Locus: "filesystem/" + kindPkg(kind), Detail: fmt.Sprintf("walk took %.1f s of CPU time\nfaults: %v", el, ops)}
+		if worst.Sec > c18CallCPU {
+			return &core.Violation{Clause: "C18.slow", Trigger: trig, Locus: "filesystem/" + kindPkg(kind), Detail: fmt.Sprintf("a single %s call took %.1f s of CPU time on a %d-byte image\nfaults: %v", worst.What, worst.Sec, imgSize, ops)}
+		}
+		if worst.Truncated {
+			res.Probe("walk-cut-at-cpu-allowance")
 		}
 		if sawErr {
 			res.Probe("walk-returned-error")
